@@ -111,7 +111,7 @@ pub fn gen(ctx: &mut Ctx) {
         let mut bad_keys = 0usize;
         for _ in 0..140 {
             let m = simple_make(ctx, "example.com");
-            if let Ok(r) = crate::env::block_on(auth.make_credential(m.real_pub())) {
+            if let Some(Ok(r)) = crate::util::guarded(|| crate::env::block_on(auth.make_credential(m.real_pub()))) {
                 let id = r.auth_data.attested_credential_data.as_ref().map(|a| a.credential_id().to_vec()).unwrap_or_default();
                 if id.len() != want { ok_len = false; } else { for (k, b) in id.iter().enumerate() { or[k] |= b; and[k] &= b; } }
                 ids.insert(id);
